@@ -299,11 +299,14 @@ class Parameter(Accessible):
         """
         self.fixExport()
         if self.constant is not None:
-            constant = self.datatype(self.constant)
-            # The value of the `constant` property should be the
-            # serialised version of the constant, or unset
-            self.constant = self.datatype.export_value(constant)
+            # keep the internal value: finish is called several times (class, copy, module),
+            # the serialised version is created on export only
+            self.constant = self.datatype(self.constant)
             self.readonly = True
+            if modobj:
+                # a constant parameter reads as its constant
+                self.value = self.constant
+                self.readerror = None
         for propname in 'default', 'value':
             if propname in self.propertyValues:
                 value = self.propertyValues.pop(propname)
@@ -322,6 +325,12 @@ class Parameter(Accessible):
 
     def export_value(self):
         return self.datatype.export_value(self.value)
+
+    def exportProperties(self):
+        result = super().exportProperties()
+        if self.constant is not None:
+            result['constant'] = self.datatype.export_value(self.constant)
+        return result
 
     def for_export(self):
         return dict(self.exportProperties(), readonly=self.readonly)
